@@ -6,6 +6,38 @@ Require Import SDJ.Json SDJ.Wire SDJ.Model2 SDJ.Out SDJ.Restore2 SDJ.ATree SDJ.T
   SDJ.Verify SDJ.C07Proofs.
 Local Open Scope string_scope.
 
+(* claims without reserved names pass the issuer's reject_reserved_names check (repair F19) *)
+Lemma has_reserved_members top kvs :
+  Forall (fun kv : string * json => jwf (snd kv) -> has_reserved false (snd kv) = false) kvs ->
+  Forall (fun kv : string * json => fst kv <> "_sd" /\ fst kv <> "..." /\ jwf (snd kv)) kvs ->
+  (top = true -> ~ In "_sd_alg" (map fst kvs)) ->
+  has_reserved top (JObj kvs) = false.
+Proof.
+  intros IH Hk Hn. cbn [has_reserved]. induction kvs as [|[k v] r IHr]; [reflexivity|].
+  cbn [existsb]. inversion Hk as [|? ? (H1 & H2 & H3) Hr]; subst. inversion IH as [|? ? Hv IHt]; subst. cbn [fst snd map] in *.
+  destruct (String.eqb_spec k "_sd"); [contradiction|]. destruct (String.eqb_spec k "..."); [contradiction|].
+  rewrite (Hv H3). cbn [orb].
+  assert (Ht : top && String.eqb k "_sd_alg" = false).
+  { destruct top; [|reflexivity]. cbn [andb]. destruct (String.eqb_spec k "_sd_alg") as [->|]; [|reflexivity].
+    exfalso. apply (Hn eq_refl). left. reflexivity. }
+  rewrite Ht. cbn [orb]. apply IHr; [assumption|assumption|]. intros Et Hin. apply (Hn Et). right. assumption.
+Qed.
+
+Lemma has_reserved_jwf : forall j, jwf j -> has_reserved false j = false.
+Proof.
+  induction j as [| | | | xs IH | kvs IH] using json_ind'; intros Hw; try reflexivity.
+  - inversion Hw as [| | | |xs' Hxs|]; subst. cbn [has_reserved].
+    induction IH as [|x r Hx _ IHr]; [reflexivity|]. cbn [existsb]. inversion Hxs; subst.
+    rewrite Hx by assumption. cbn [orb]. apply IHr; [constructor|]; assumption.
+  - inversion Hw as [| | | | |kvs' _ Hk]; subst. apply has_reserved_members; [assumption|assumption|discriminate].
+Qed.
+
+Lemma has_reserved_top kvs : jwf (JObj kvs) -> ~ In "_sd_alg" (map fst kvs) -> has_reserved true (JObj kvs) = false.
+Proof.
+  intros Hw Hn. inversion Hw as [| | | | |kvs' _ Hk]; subst. apply has_reserved_members; [|assumption|intros _; assumption].
+  apply Forall_forall. intros kv _. apply has_reserved_jwf.
+Qed.
+
 Section P.
 Variable E : issue_env.
 Variable O : oracles.
@@ -229,7 +261,7 @@ Proof.
   (* run encode *)
   destruct (sign_total header (JObj (flat_map (bmem H enc) m3))) as (jwt & Hsign & Hjt).
   assert (Hissue : issue E C paths max_decoys cnf header = Val (serialise_token jwt ds, JObj (flat_map (bmem H enc) m3), ds)).
-  { unfold issue. rewrite Hf. cbn [of_res obind]. change (blind H enc t') with (JObj (flat_map (bmem H enc) mems')). cbv iota.
+  { unfold issue. unfold C at 1. rewrite (has_reserved_top ckvs HC Hnalg). fold C. rewrite Hf. cbn [of_res obind]. change (blind H enc t') with (JObj (flat_map (bmem H enc) mems')). cbv iota.
     change (match max_decoys with
             | Some m => if (0 <? m)%Z then of_res (add_decoys (flat_map (bmem H enc) mems') (ie_decoys E)) else Val (flat_map (bmem H enc) mems')
             | None => Val (flat_map (bmem H enc) mems') end) with (decoy_stage (flat_map (bmem H enc) mems') max_decoys).
